@@ -9,15 +9,24 @@ package storage
 // x every offset below the end of the flushed log x every positive byte limit from a
 // boundary-derived alphabet, on real PartitionLog objects. Plus gap layouts (restored
 // segments with a hole) and the broker's real configuration (IndexIntervalMessages=100).
+// Plus the storage-variant dimension "log reopened from the bucket": every layout x every
+// subset of segments whose .index object is missing when a fresh PartitionLog runs
+// RestoreFromS3 (committed offset = end of the flushed log). A failed restore means the
+// partition is not served (cmd/broker getPartitionLog returns the error and registers no
+// log): nothing to fetch, counted. A successful restore is judged by the same progress
+// oracle over every offset x byte limit.
 
 import (
 	"bytes"
 	"context"
+	"encoding/binary"
+	"errors"
 	"fmt"
 	"hash/fnv"
 	"runtime"
 	"runtime/debug"
 	"sort"
+	"strings"
 	"sync"
 	"testing"
 	"testing/synctest"
@@ -29,11 +38,15 @@ import (
 )
 
 type c04Job struct {
-	Kind     string `json:"kind"`   // "layout" | "gap" | "broker"
+	Kind     string `json:"kind"`   // "layout" | "gap" | "broker" | "restore"
 	Layout   string `json:"layout"` // batches a|b, '|' = flush; a final flush is implied. broker: "<n>x<valueBytes>"
 	Interval int32  `json:"index_interval_messages"`
 	Path     string `json:"path"` // "range" (cache off) | "cached" (cache on, populated by the flush) | "cold" (cache on, restart, read-ahead 1)
-	seq      int64
+	// restore: state of the .index object of segment k (in offset order) when the log is
+	// reopened: 'p' present as written, 'm' missing, 'z' replaced by a well-formed index
+	// with zero entries (no writer produces one; informational, not judged).
+	Index string `json:"index_objects,omitempty"`
+	seq   int64
 }
 
 type c04Viol struct {
@@ -49,6 +62,9 @@ type c04Out struct {
 	harness string
 	reads   int64
 	stuck   map[int32][]int64 // byte limit -> offsets whose read does not reach the batch holding them
+	// restore jobs
+	notServed string // non-empty: RestoreFromS3 failed (class of the error); no reads
+	unindexed int    // restored segments that carry no index entries
 }
 
 // c04Check judges one read below the high watermark.
@@ -77,9 +93,12 @@ func c04Check(s *rpSys, p *rpPart, o int64, mb int32, data []byte, err error) (*
 	l := p.log
 	l.mu.Lock()
 	var entries []*IndexEntry
+	var tseg *segmentRange // the segment holding the target batch
 	for _, sg := range l.segments {
 		if tb.Base >= sg.baseOffset && tb.Base <= sg.lastOffset {
 			entries = l.indexEntries[sg.baseOffset]
+			c := sg
+			tseg = &c
 		}
 	}
 	l.mu.Unlock()
@@ -92,6 +111,8 @@ func c04Check(s *rpSys, p *rpPart, o int64, mb int32, data []byte, err error) (*
 	sb := p.ref[r.Start]
 	what := fmt.Sprintf("returned %d bytes = batches %d..%d (offsets %d..) of which %d complete, all before batch %d [%d..%d] that holds the offset; the same request repeats forever", len(data), r.Start, r.Target-1, sb.Base, r.Complete, r.Target, tb.Base, tb.Last)
 	switch {
+	case tseg != nil && len(entries) == 0 && sb.Base == tseg.baseOffset && int64(len(data)) == int64(mb):
+		return mk("unindexed-segment-read-from-segment-start-capped-by-maxbytes", "%s (segment [%d..%d] is served with no index entries: the read returns the first maxBytes bytes of the segment whatever the offset)", what, tseg.baseOffset, tseg.lastOffset), r
 	case ent != nil && sb.Base == ent.Offset && ent.Offset < tb.Base && int64(len(data)) == int64(mb):
 		return mk("sparse-index-start-capped-by-maxbytes", "%s (read starts at the sparse index entry for offset %d, %d index entries for the segment, and is cut at maxBytes)", what, ent.Offset, len(entries)), r
 	case ent != nil && sb.Base < ent.Offset:
@@ -231,6 +252,125 @@ func c04RunGap(job *c04Job, out *c04Out) {
 	out.sig = fmt.Sprintf("gap/%s/%d/%s|%s", job.Path, job.Interval, c03Layout(p), out.sig)
 }
 
+// c04RunRestore: build the layout, flush, then change the .index objects in the bucket as
+// job.Index says (segment k in offset order: p = untouched, m = deleted, z = rewritten as a
+// well-formed index with zero entries), and reopen the partition the way cmd/broker
+// getPartitionLog does: fresh PartitionLog at the committed offset (= end of the flushed
+// log), fresh cache, RestoreFromS3. An error = the partition is not served (no reads).
+func c04RunRestore(job *c04Job, out *c04Out) {
+	s := rpNewSys(c04Cfg(job), false)
+	p := s.parts[0]
+	ctx := context.Background()
+	for i := 0; i < len(job.Layout); i++ {
+		var err error
+		if job.Layout[i] == '|' {
+			err = s.flush(false, false)
+		} else {
+			err = s.appendClass(job.Layout[i])
+		}
+		if err != nil {
+			out.harness = err.Error()
+			return
+		}
+	}
+	if err := s.flush(false, false); err != nil {
+		out.harness = err.Error()
+		return
+	}
+	p.log.mu.Lock()
+	segs := append([]segmentRange(nil), p.log.segments...)
+	p.log.mu.Unlock()
+	if len(segs) != len(job.Index) {
+		out.harness = fmt.Sprintf("restore layout has %d segments, index_objects %q", len(segs), job.Index)
+		return
+	}
+	if p.published+1 != p.end() || p.durable != len(p.ref) {
+		out.harness = fmt.Sprintf("restore layout: committed offset %d, log end %d", p.published+1, p.end())
+		return
+	}
+	for k, sg := range segs {
+		key := p.log.indexKey(sg.baseOffset)
+		switch job.Index[k] {
+		case 'p':
+		case 'm':
+			if err := s.s3.DeleteIndex(ctx, key); err != nil {
+				out.harness = err.Error()
+				return
+			}
+		case 'z':
+			cur, err := s.s3.DownloadIndex(ctx, key)
+			if err != nil || len(cur) < indexHeaderLen {
+				out.harness = fmt.Sprintf("index %s: %d bytes, %v", key, len(cur), err)
+				return
+			}
+			hdr := append([]byte(nil), cur[:indexHeaderLen]...)
+			binary.BigEndian.PutUint32(hdr[6:10], 0) // entry count
+			if err := s.s3.MemoryS3Client.UploadIndex(ctx, key, hdr); err != nil {
+				out.harness = err.Error()
+				return
+			}
+		default:
+			out.harness = "bad index_objects " + job.Index
+			return
+		}
+	}
+	s.cache = s.cfg.newCache()
+	s.open(p, p.published+1)
+	if _, err := p.log.RestoreFromS3(ctx); err != nil {
+		out.notServed = "other-error"
+		if errors.Is(err, ErrNotFound) {
+			out.notServed = "index-not-found"
+		}
+		// coarse signature: the refusal does not depend on batch sizes or path
+		out.sig = fmt.Sprintf("restore/not-served:%s/segments=%d/first-missing=%d", out.notServed, len(segs), strings.IndexByte(job.Index, 'm'))
+		out.nontriv = true
+		return
+	}
+	p.log.mu.Lock()
+	for _, sg := range p.log.segments {
+		if len(p.log.indexEntries[sg.baseOffset]) == 0 {
+			out.unindexed++
+		}
+	}
+	p.log.mu.Unlock()
+	var offs []int64
+	for o := int64(0); o < p.end(); o++ {
+		offs = append(offs, o)
+	}
+	passes := 1
+	if job.Path == "cold" {
+		passes = 2 // second pass: segments the first pass or the read-ahead put into the cache
+	}
+	c04ReadAll(s, p, offs, rpMaxBytes(p, true), out, passes)
+	if out.unindexed > 0 {
+		out.nontriv = true
+	}
+	out.sig = fmt.Sprintf("restore/%s/%d/%s/%s|%s|full=%d,range=%d", job.Path, job.Interval, job.Index, c03Layout(p), out.sig, s.s3.FullGets, s.s3.RangeGets)
+}
+
+// c04IndexVariants: every assignment of {present, missing} to the .index objects of n
+// segments, fewest missing first (all present first).
+func c04IndexVariants(n int) []string {
+	var out []string
+	for miss := 0; miss <= n; miss++ {
+		for mask := 0; mask < 1<<n; mask++ {
+			c := 0
+			b := make([]byte, n)
+			for k := 0; k < n; k++ {
+				b[k] = 'p'
+				if mask&(1<<k) != 0 {
+					b[k] = 'm'
+					c++
+				}
+			}
+			if c == miss {
+				out = append(out, string(b))
+			}
+		}
+	}
+	return out
+}
+
 // c04RunBroker uses the PartitionLogConfig literal of cmd/broker newHandler (defaults).
 func c04RunBroker(job *c04Job, out *c04Out) {
 	var n, vlen int
@@ -303,6 +443,8 @@ func c04Run(t *testing.T, job *c04Job) (out c04Out) {
 			c04RunGap(job, &out)
 		case "broker":
 			c04RunBroker(job, &out)
+		case "restore":
+			c04RunRestore(job, &out)
 		default:
 			out.harness = "unknown job kind " + job.Kind
 		}
@@ -344,11 +486,13 @@ func rep2(n, v int) []int {
 func TestVerifC04(t *testing.T) {
 	rep := vh.New(t, "C04")
 	defer rep.Finish()
-	rep.Rule = "case = one flushed log (layout: 1..N batches of size class a (1 record) or b (2 records) with every subset of flush positions; gap layouts; broker-configuration layouts) x IndexIntervalMessages in {1,2,3,100} x path (range read with cache off | cached | cold cache after restart with read-ahead) on a real PartitionLog; in it every Read(o, maxBytes) for every o below the end of the flushed log and every positive maxBytes from {every distance between two batch boundaries, +-1, 1, 60, 61, 62, 1MiB} is executed; the run must start at a batch boundary at or before the batch holding o (first batch after o in a gap) and extend past the first byte of that batch; outcome signature = path + interval + segment layout + hash of (start batch, target batch, reaches, length) of all reads; non-trivial = some read starts at an earlier batch than the one holding o (sparse index start)"
+	rep.Rule = "case = one flushed log (layout: 1..N batches of size class a (1 record) or b (2 records) with every subset of flush positions; gap layouts; broker-configuration layouts) x IndexIntervalMessages in {1,2,3,100} x path (range read with cache off | cached | cold cache after restart with read-ahead) on a real PartitionLog; plus restore cases = layout (1..M batches) x every subset of segments whose .index object is missing from the bucket x interval x path (range | cold), where a fresh PartitionLog at the committed offset runs RestoreFromS3: a restore error = partition not served (no reads, counted), a successful restore is read like any other case; in each case every Read(o, maxBytes) for every o below the end of the flushed log and every positive maxBytes from {every distance between two batch boundaries, +-1, 1, 60, 61, 62, 1MiB} is executed; the run must start at a batch boundary at or before the batch holding o (first batch after o in a gap) and extend past the first byte of that batch; outcome signature = path + interval + segment layout (+ index objects) + hash of (start batch, target batch, reaches, length) of all reads, or for a refused restore the error class + segment count + first missing index; non-trivial = some read starts at an earlier batch than the one holding o (sparse index start), or the restore met a missing index object (refused, or served with an unindexed segment)"
 	rep.Assumptions = []string{
 		"high watermark = end of the flushed log (default flush-on-ack configuration); every enumerated offset is below it",
 		"'includes the start of the batch holding o' is read as: the returned run extends beyond the first byte of that batch (a stricter reading would also reject a run cut inside that batch's header)",
 		"S3 = storage.MemoryS3Client semantics; synctest bubble per case, quiesced after every read",
+		"restore cases: committed offset (metadata store next offset) = end of the flushed log, so every segment is committed; a RestoreFromS3 error means the partition is not served (cmd/broker getPartitionLog returns the error and keeps no log), which is not a fetch and not judged",
+		"zero-entry .index objects (well-formed header, count 0) are executed for information only (info_* counters): no writer in the repository produces one, so they are outside the layouts the property quantifies over",
 		"broker configuration = the PartitionLogConfig literal of cmd/broker newHandler with default environment (IndexIntervalMessages 100, MaxBytes 4MiB, FlushInterval 500ms in virtual time, ReadAheadSegments 2, cache 32MiB)",
 	}
 	thorough := vh.Thorough()
@@ -408,10 +552,42 @@ func TestVerifC04(t *testing.T) {
 			jobs = append(jobs, &c04Job{Kind: "broker", Layout: lay, Interval: 100, Path: path})
 		}
 	}
+	// storage variant: the log reopened from the bucket with every subset of .index
+	// objects missing (all present first), then the informational zero-entry variants.
+	restoreMax := maxBatches
+	if thorough {
+		restoreMax = maxBatches - 1
+	}
+	restorePaths := []string{"range", "cold"}
+	nRestore, nZero := 0, 0
+	for _, lay := range c04Layouts(restoreMax) {
+		nseg := strings.Count(lay, "|") + 1
+		for _, ix := range c04IndexVariants(nseg) {
+			for _, iv := range []int32{1, 2, 3, 100} {
+				for _, path := range restorePaths {
+					jobs = append(jobs, &c04Job{Kind: "restore", Layout: lay, Interval: iv, Path: path, Index: ix})
+					nRestore++
+				}
+			}
+		}
+	}
+	for _, lay := range c04Layouts(restoreMax) {
+		nseg := strings.Count(lay, "|") + 1
+		for k := 0; k < nseg; k++ {
+			ix := strings.Repeat("p", k) + "z" + strings.Repeat("p", nseg-k-1)
+			for _, path := range restorePaths {
+				jobs = append(jobs, &c04Job{Kind: "restore", Layout: lay, Interval: 1, Path: path, Index: ix})
+				nZero++
+			}
+		}
+	}
 	for i, j := range jobs {
 		j.seq = int64(i)
 	}
 	rep.SetInfo("cases", len(jobs))
+	rep.SetInfo("restore_max_batches", restoreMax)
+	rep.SetInfo("restore_cases_index_missing_or_present", nRestore)
+	rep.SetInfo("restore_cases_zero_entry_index_informational", nZero)
 	rep.SetInfo("gap_layouts", gaps)
 	rep.SetInfo("broker_layouts_batches_x_valuebytes", brokers)
 
@@ -422,6 +598,7 @@ func TestVerifC04(t *testing.T) {
 		v   c04Viol
 	}
 	var mu sync.Mutex
+	var zeroFirst *found
 	best := map[string][]found{}
 	counts := map[string]int64{}
 	harnessErr := ""
@@ -439,8 +616,12 @@ func TestVerifC04(t *testing.T) {
 			defer wg.Done()
 			for job := range ch {
 				o := c04Run(t, job)
-				rep.Eval(o.reads)
-				rep.Count("cases", 1)
+				if job.Kind == "restore" && strings.IndexByte(job.Index, 'z') >= 0 {
+					rep.Count("info_zero_entry_index_reads_not_judged", o.reads)
+				} else {
+					rep.Eval(o.reads)
+					rep.Count("cases", 1)
+				}
 				if o.harness != "" {
 					mu.Lock()
 					if harnessErr == "" {
@@ -455,6 +636,37 @@ func TestVerifC04(t *testing.T) {
 						sum[fmt.Sprintf("maxBytes=%d", mb)] = fmt.Sprintf("%d offsets without progress (%d..%d)", len(offs), offs[0], offs[len(offs)-1])
 					}
 					rep.SetInfo(fmt.Sprintf("broker_config_%s_%s", job.Layout, job.Path), sum)
+				}
+				if job.Kind == "restore" {
+					if strings.IndexByte(job.Index, 'z') >= 0 {
+						// informational only: no writer produces a zero-entry index
+						rep.Count("info_zero_entry_index_cases", 1)
+						switch {
+						case o.notServed != "":
+							rep.Count("info_zero_entry_index_restore_refused", 1)
+						case len(o.viols) > 0:
+							rep.Count("info_zero_entry_index_served_with_stuck_reads", 1)
+							mu.Lock()
+							if zeroFirst == nil || job.seq < zeroFirst.job.seq {
+								zeroFirst = &found{job, o.viols[0]}
+							}
+							mu.Unlock()
+						default:
+							rep.Count("info_zero_entry_index_served_all_reads_progress", 1)
+						}
+						continue
+					}
+					if strings.IndexByte(job.Index, 'm') >= 0 {
+						rep.Count("restore_cases_with_missing_index", 1)
+					}
+					if o.notServed != "" {
+						rep.Count("restore_not_served_"+o.notServed, 1)
+					} else {
+						rep.Count("restore_served", 1)
+						if o.unindexed > 0 {
+							rep.Count("restore_served_with_unindexed_segment", 1)
+						}
+					}
 				}
 				sig := o.sig
 				for _, v := range o.viols {
@@ -504,6 +716,9 @@ func TestVerifC04(t *testing.T) {
 	if harnessErr != "" {
 		t.Fatalf("HARNESS-ERROR %s", harnessErr)
 	}
+	if zeroFirst != nil {
+		rep.SetInfo("info_zero_entry_index_first_stuck_case", map[string]any{"case": zeroFirst.job, "key": zeroFirst.v.key, "detail": zeroFirst.v.detail})
+	}
 	keys := make([]string, 0, len(best))
 	for k := range best {
 		keys = append(keys, k)
@@ -512,8 +727,12 @@ func TestVerifC04(t *testing.T) {
 	for _, k := range keys {
 		rep.Count("violating_cases_"+k, counts[k])
 		for _, f := range best[k] {
-			rep.Violation(k, fmt.Sprintf("%s layout %q interval=%d path=%s: %s", f.job.Kind, f.job.Layout, f.job.Interval, f.job.Path, f.v.detail),
-				map[string]any{"kind": f.job.Kind, "layout": f.job.Layout, "index_interval_messages": f.job.Interval, "path": f.job.Path, "offset": f.v.o, "max_bytes": f.v.mb})
+			ix := ""
+			if f.job.Kind == "restore" {
+				ix = fmt.Sprintf(" reopened from the bucket with index objects %q (p present, m missing),", f.job.Index)
+			}
+			rep.Violation(k, fmt.Sprintf("%s layout %q%s interval=%d path=%s: %s", f.job.Kind, f.job.Layout, ix, f.job.Interval, f.job.Path, f.v.detail),
+				map[string]any{"kind": f.job.Kind, "layout": f.job.Layout, "index_interval_messages": f.job.Interval, "path": f.job.Path, "index_objects": f.job.Index, "offset": f.v.o, "max_bytes": f.v.mb})
 		}
 	}
 }
